@@ -94,6 +94,9 @@ func (c16) Gen(r *rand.Rand, tier string, i int) any {
 				f += "," + c16FileNames[r.Intn(len(c16FileNames))]
 			}
 			c.Cmds = append(c.Cmds, c16Cmd{Op: "load", Arg: f})
+			if r.Intn(8) == 0 {
+				c.Cmds = append(c.Cmds, c16Cmd{Op: "load", Arg: f}) // the same path set again, right away
+			}
 		case x < 75:
 			c.Cmds = append(c.Cmds, c16Cmd{Op: "define", Arg: c16Clauses[r.Intn(len(c16Clauses))]})
 		default:
